@@ -20,6 +20,8 @@ open Nanite.C17
 #print axioms c17_scale_spikes_count
 #print axioms c17_scale_spike_area
 #print axioms c17_nonneg_spike_area
+#print axioms c17_scale_idt_maxima
+#print axioms c17_nonneg_idt_maxima
 #print axioms c17_force_free
 #print axioms c17_names_sorted
 #print axioms c17_names_mem
